@@ -1,11 +1,11 @@
-\* must violate: CommissioningComplete with a failing store leaves the fail-safe idle and nothing stored (open finding F-C08e)
+\* must violate: the code as found - CommissioningComplete with a failing store left the fail-safe idle and nothing stored (F-C08e)
 SPECIFICATION Spec
 CONSTANTS
   Ctl = {1, 2}
   MaxIdx = 2
   MaxGen = 3
   MaxOps = 11
-  Variant = "fixed"
+  Variant = "orig"
   StoreFaults = TRUE
 VIEW view
 INVARIANTS CommittedOrUndone
